@@ -686,7 +686,9 @@ func c13Forward(p *ana.Prog, r *ana.Result, fn *ssa.Function, rd *ssa.Call) {
 	if nc := p.Const("net/scion", "EndhostPort"); nc != nil {
 		endhost, _ = ana.ConstInt(nc.Value)
 	}
-	g1 := mk("localConnPort==EndhostPort", func(v ssa.Value) bool { return ana.AccessPath(v) == "localConnPort" || strings.HasSuffix(ana.AccessPath(v), ".Port") && !strings.Contains(ana.AccessPath(v), "udpLayer") }, endhost, true)
+	g1 := mk("localConnPort==EndhostPort", func(v ssa.Value) bool {
+		return ana.AccessPath(v) == "localConnPort" || strings.HasSuffix(ana.AccessPath(v), ".Port") && !strings.Contains(ana.AccessPath(v), "udpLayer")
+	}, endhost, true)
 	g2 := mk("udp.DstPort!=EndhostPort", func(v ssa.Value) bool { return strings.HasSuffix(ana.AccessPath(v), "udpLayer.DstPort") }, endhost, false)
 	g3 := ana.FindGate(p, fn, "udp.DstPort!=localHostPort", func(c ana.Cmp, isCmp bool, _ ssa.Value) (bool, bool) {
 		if !isCmp || (c.Op != token.EQL && c.Op != token.NEQ) {
